@@ -53,6 +53,7 @@ def bounds(tier):
 
 
 def cases(tier, seed):
+    yield {'kind': 'big', 'seed': seed}
     G = bounds(tier)['n_genes']
     n_tables = 3 ** (3 * G)
     step = 81 if tier == 'quick' else 2187
@@ -73,10 +74,11 @@ def table_from_index(idx, G):
     return cells
 
 
-def write_marker_file(path, cells, genes):
+def write_marker_file(path, cells, genes, pairs=None):
+    pairs = PAIRS if pairs is None else pairs
     n_pairs, G = len(cells), len(genes)
     pair_to_idx = {'cluster': {}}
-    for idx, (a, b) in enumerate(PAIRS):
+    for idx, (a, b) in enumerate(pairs):
         pair_to_idx['cluster'].setdefault(a, {})[b] = idx
         pair_to_idx['cluster'].setdefault(b, {})
 
@@ -160,7 +162,143 @@ def census(selected, cells, genes, query, req, target, label):
     return msgs
 
 
+def evaluate_big(case, scratch):
+    """a parent with exactly 256 leaf pairs (16 x 16 leaves), so that pair
+    columns reach 255, the boundary of an 8-bit index; and a history of two
+    selections on ONE marker file with two taxonomies that share parent
+    names (state carried between calls)"""
+    import warnings
+    warnings.filterwarnings('ignore')
+    from cell_type_mapper.taxonomy.taxonomy_tree import TaxonomyTree
+    from cell_type_mapper.marker_selection.marker_array import (
+        MarkerGeneArray)
+    from cell_type_mapper.marker_selection.selection import (
+        select_marker_genes_v2)
+    from cell_type_mapper.marker_selection.selection_pipeline import (
+        select_all_markers)
+    from mc import common
+    d = scratch.new_dir('c12big')
+    tmp = scratch.new_dir('tmp')
+    violations = []
+    keys = []
+    n_eval = 0
+
+    def viol(key, msgs):
+        for m in msgs[:3]:
+            violations.append({'key': key, 'msg': m[:1200]})
+
+    # ---- 16 x 16
+    la = [f'a{i:02d}' for i in range(16)]
+    lb = [f'b{i:02d}' for i in range(16)]
+    leaves = sorted(la + lb)
+    pairs = list(itertools.combinations(leaves, 2))
+    genes = [f'g{j}' for j in range(8)]
+    rng = np.random.default_rng(case['seed'] + 4)
+    cells = [[0] * len(genes) for _ in pairs]
+    cross = [i for i, (x, y) in enumerate(pairs) if x[0] != y[0]]
+    for i in cross:
+        for g in range(6):
+            if rng.uniform() < 0.4:
+                cells[i][g] = int(rng.integers(1, 3))
+    # the LAST cross pair relies on markers no other pair has
+    last = cross[-1]
+    cells[last] = [0, 0, 0, 0, 0, 0, 1, 2]
+    path = d / 'big.h5'
+    write_marker_file(path, cells, genes, pairs=pairs)
+    tree = TaxonomyTree(data={
+        'hierarchy': ['class', 'cluster'],
+        'class': {'A': la, 'B': lb},
+        'cluster': {leaf: [] for leaf in leaves}})
+
+    def census_big(selected, req, target, label):
+        msgs = []
+        if len(set(selected)) != len(selected):
+            msgs.append(f'{label}: duplicates')
+        for p in req:
+            avail = [g for gi, g in enumerate(genes) if cells[p][gi]]
+            got = [g for g in selected if g in avail]
+            need = min(2 * target, len(avail))
+            if len(got) < need:
+                msgs.append(f'{label}: pair {pairs[p]} covered by '
+                            f'{len(got)} of the required {need}')
+        return msgs
+
+    full = MarkerGeneArray.from_cache_path(cache_path=path,
+                                           query_gene_names=list(genes),
+                                           tmp_dir=tmp)
+    res = {}
+    for variant in ('full', 'thinned'):
+        arr = full.spawn_copy() if variant == 'full' else \
+            full.downsample_pairs_to_other(
+                only_keep_pairs=tree.leaves_to_compare(None), tmp_dir=tmp)
+        for target in (1, 2):
+            sel = [str(x) for x in select_marker_genes_v2(
+                marker_gene_array=arr.spawn_copy(),
+                query_gene_names=list(genes), taxonomy_tree=tree,
+                parent_node=None, n_per_utility=target, tmp_dir=tmp)]
+            n_eval += 1
+            res[(variant, target)] = sorted(sel)
+            viol('coverage-wrong', census_big(
+                sel, cross, target, f'16x16 root [{variant}] target '
+                                    f'{target}'))
+            keys.append(f'big|{variant}|{target}')
+    for target in (1, 2):
+        if res[('full', target)] != res[('thinned', target)]:
+            viol('depends-on-full-vs-thinned-table',
+                 [f'16x16 root target {target}: {res[("full", target)]} vs '
+                  f'{res[("thinned", target)]}'])
+    for cutoff in (0, 10 ** 7):
+        lookup, _ = select_all_markers(
+            marker_cache_path=path, query_gene_names=list(genes),
+            taxonomy_tree=tree, n_per_utility=2, n_processors=2,
+            behemoth_cutoff=cutoff, tmp_dir=tmp)
+        common.close_leaked_h5()
+        n_eval += 1
+        viol('coverage-wrong', census_big(
+            [str(x) for x in lookup[None]], cross, 2,
+            f'16x16 select_all_markers cutoff={cutoff}'))
+    # ---- two taxonomies over the same leaves / same marker file
+    cells3 = [[1, 2, 0], [2, 0, 1], [0, 1, 2]]
+    genes3 = ['gn_z', 'gn_y', 'gn_x']
+    p3 = d / 'hist.h5'
+    write_marker_file(p3, cells3, genes3)
+    tree_a = TaxonomyTree(data=json.loads(json.dumps(TREES['two'])))
+    tree_b = TaxonomyTree(data={
+        'hierarchy': ['class', 'cluster'],
+        'class': {'K1': ['lf_c'], 'K2': ['lf_a', 'lf_b']},
+        'cluster': {leaf: [] for leaf in LEAVES}})
+    req_b = {None: [i for i, (x, y) in enumerate(PAIRS)
+                    if 'lf_c' in (x, y)],
+             ('class', 'K1'): [],
+             ('class', 'K2'): [i for i, (x, y) in enumerate(PAIRS)
+                               if 'lf_c' not in (x, y)]}
+    for order in (('b', 'a'), ('a', 'b'), ('b', 'a', 'b')):
+        for which in order:
+            tr = tree_a if which == 'a' else tree_b
+            lookup, _ = select_all_markers(
+                marker_cache_path=p3, query_gene_names=list(genes3),
+                taxonomy_tree=tr, n_per_utility=1, n_processors=2,
+                tmp_dir=tmp)
+            common.close_leaked_h5()
+            n_eval += 1
+            for parent in [None, ('class', 'K1'), ('class', 'K2')]:
+                req = required_pairs('two', parent) if which == 'a' \
+                    else req_b[parent]
+                viol('coverage-wrong', census(
+                    [str(x) for x in lookup[parent]], cells3, genes3,
+                    genes3, req, 1,
+                    f'history {order} on one marker file, taxonomy '
+                    f'{which}, parent {parent}'))
+            keys.append(f'history|{order}|{which}')
+    return {'violations': violations[:30], 'keys': keys,
+            'outcomes': ['big'], 'evaluations': n_eval,
+            'sample': {'kind': '16x16 leaves (256 cross pairs) and a '
+                               'two-taxonomy history on one marker file'}}
+
+
 def evaluate(case, scratch):
+    if case.get('kind') == 'big':
+        return evaluate_big(case, scratch)
     import warnings
     warnings.filterwarnings('ignore')
     from cell_type_mapper.taxonomy.taxonomy_tree import TaxonomyTree
